@@ -2564,3 +2564,157 @@ def k_error_and_drop(E, tier):
                         {"verdict": "violated", "per_solver": {"structural": "%d path(s) continue after Err" % swallowed}, "time_s": 0})
             o["region_excluded"] = "holds"
     return rec
+
+
+def k_load_module(E, tier):
+    """C03: CssData::load_module executes a module's initialiser only when no module is cached under that
+    path, stores the result under the very same path, and otherwise returns the cached scope."""
+    f = E.find(name_re=r"^cssdata::<impl at .*>::load_module$")
+    rec = Rec("CssData::load_module", f, E)
+    ctx = E.ctx()
+    me = sym.Opaque("CssData", "self", ctx)
+    path = sym.Opaque("&str", "path", ctx)
+    init = sym.Opaque("Init", "init", ctx)
+    cached = sym.Opaque("std::option::Option<&ScopeRef>", "cached", ctx)
+
+    def ev(nm, ret=None):
+        def h(ex, st, c, a, d):
+            e = sym.Event(nm, a, None, len(st.pc))
+            e.rargs = [ex.resolve_ref(st, x) for x in a]
+            r = ret(d) if ret else ctx.fresh_value(d or "()", "ret." + nm)
+            e.result = r
+            st.events.append(e)
+            return r
+        return h
+
+    def m_call_once(ex, st, c, a, d):
+        ok = st.fork()
+        err = st.fork()
+        v = sym.Opaque("ScopeRef", "fresh-module", ctx)
+        e = sym.Event("init", a, v, len(st.pc))
+        e.rargs = [ex.resolve_ref(st, x) for x in a]
+        ok.events.append(e)
+        e2 = sym.Event("init-failed", a, None, len(st.pc))
+        err.events.append(e2)
+        return [(ok, sym.Agg(d, "Ok", {"0": v}, 0)), (err, sym.Agg(d, "Err", {"0": sym.Opaque("Error", "e", ctx)}, 1))]
+
+    def m_clone(ex, st, c, a, d):
+        src = ex.resolve_ref(st, a[0])
+        o = sym.Opaque("ScopeRef", "clone-of:" + getattr(src, "name", "?"), ctx)
+        e = sym.Event("clone", [src], o, len(st.pc))
+        st.events.append(e)
+        return o
+
+    models = [
+        (r"^BTreeMap::<String, ScopeRef>::get::<str>$", ev("get", lambda d: cached)),
+        (r"^BTreeMap::<String, ScopeRef>::insert$", ev("insert")),
+        (r"as FnOnce<\(&mut CssData,\)>>::call_once$", m_call_once),
+        (r"^<ScopeRef as Clone>::clone$", m_clone),
+        (r"^<&str as std::convert::Into<String>>::into$", lambda ex, st, c, a, d: a[0]),
+    ] + BASE_MODELS
+    ex = sym.Executor(ctx, models=models, feasibility=E.feasibility(ctx))
+    paths = [p for p in ex.run(f, [sym.Ref("val", me), path, init]) if p.status == "return"]
+    rec.paths = len(paths)
+    D = ex.discriminant(cached).term
+    kinds = set()
+    for i, p in enumerate(paths):
+        gets = [e for e in p.events if e.callee == "get"]
+        inits = [e for e in p.events if e.callee in ("init", "init-failed")]
+        ins = [e for e in p.events if e.callee == "insert"]
+        if len(gets) != 1 or gets[0].rargs[1] is not path:
+            rec.add("path %d: the cache is looked up once under the given path (shape not recognised)" % i, {"verdict": "inconclusive", "per_solver": {}, "time_s": 0})
+            continue
+        is_ok = isinstance(p.ret, sym.Agg) and p.ret.variant == "Ok"
+        if not inits:
+            kinds.add("hit")
+            r = E.decide(ctx, p.pc + ["(not (= %s %s))" % (D, bvlit(1, 64))])
+            rec.add("path %d: the initialiser is skipped only when a module is cached under this path" % i, r)
+            got = p.ret.fields["0"] if is_ok else None
+            ok = is_ok and not ins and isinstance(got, sym.Opaque) and got.name.startswith("clone-of:cached")
+            rec.add("path %d: a cache hit returns (a handle to) the cached scope and stores nothing" % i,
+                    {"verdict": "holds" if ok else "violated", "per_solver": {"structural": repr(got)[:60]}, "time_s": 0})
+        else:
+            r = E.decide(ctx, p.pc + ["(not (= %s %s))" % (D, bvlit(0, 64))])
+            rec.add("path %d: the initialiser runs only on a cache miss" % i, r)
+            if len(inits) != 1:
+                rec.add("path %d: the initialiser runs exactly once" % i, {"verdict": "violated", "per_solver": {"structural": "%d calls" % len(inits)}, "time_s": 0})
+                continue
+            if inits[0].callee == "init-failed":
+                kinds.add("miss-error")
+                rec.add("path %d: a failing initialiser is reported and nothing is cached" % i,
+                        {"verdict": "holds" if (not is_ok and not ins) else "violated", "per_solver": {"structural": "events"}, "time_s": 0})
+            else:
+                kinds.add("miss")
+                fresh = inits[0].result
+                ok = (is_ok and len(ins) == 1 and ins[0].rargs[1] is path
+                      and (ins[0].rargs[2] is fresh or getattr(ins[0].rargs[2], "name", "") == "clone-of:fresh-module")
+                      and (p.ret.fields["0"] is fresh or getattr(p.ret.fields["0"], "name", "") == "clone-of:fresh-module"))
+                rec.add("path %d: the new module is cached under the same path and returned" % i,
+                        {"verdict": "holds" if ok else "violated", "per_solver": {"structural": "identity"}, "time_s": 0})
+    if kinds != {"hit", "miss", "miss-error"}:
+        rec.add("hit, miss and failing-initialiser cases all present (%s)" % sorted(kinds), {"verdict": "inconclusive", "per_solver": {}, "time_s": 0})
+    return rec
+
+
+def k_lock_loading(E, tier):
+    """C02: Context::lock_loading registers the file under its name and reports a loop exactly when that name
+    is already being loaded; unlock_loading removes the same key."""
+    f = E.find(name_re=r"^input::context::<impl at .*>::lock_loading$")
+    g = E.find(name_re=r"^input::context::<impl at .*>::unlock_loading$")
+    rec = Rec("Context::lock_loading / unlock_loading", f, E)
+    ctx = E.ctx()
+    me = sym.Opaque("Context", "self", ctx)
+    file = sym.Opaque("SourceFile", "file", ctx)
+    old = sym.Opaque("std::option::Option<SourceKind>", "previous", ctx)
+
+    def ev(nm, ret=None):
+        def h(ex, st, c, a, d):
+            e = sym.Event(nm, a, None, len(st.pc))
+            e.rargs = [ex.resolve_ref(st, x) for x in a]
+            r = ret(ex, st, a, d) if ret else ctx.fresh_value(d or "()", "ret." + nm)
+            e.result = r
+            st.events.append(e)
+            return r
+        return h
+
+    key_name = sym.Opaque("&str", "name-of-file", ctx)
+    models = [
+        (r"^SourceFile::source$", lambda ex, st, c, a, d: sym.Ref("val", ex.resolve_ref(st, a[0]).child("source", "SourceName"))),
+        (r"^SourceName::name$", lambda ex, st, c, a, d: key_name),
+        (r"^SourceFile::path$", lambda ex, st, c, a, d: key_name),
+        (r"^<&str as std::convert::Into<String>>::into$", lambda ex, st, c, a, d: a[0]),
+        (r"^BTreeMap::<String, SourceKind>::insert$", ev("insert", lambda ex, st, a, d: old)),
+        (r"^BTreeMap::<String, SourceKind>::remove::<str>$", ev("remove")),
+    ] + BASE_MODELS
+    ex = sym.Executor(ctx, models=models, feasibility=E.feasibility(ctx))
+    paths = [p for p in ex.run(f, [sym.Ref("val", me), sym.Ref("val", file), ctx.fresh_scalar("bool", "as_module")]) if p.status == "return"]
+    rec.paths = len(paths)
+    D = ex.discriminant(old).term
+    kinds = set()
+    for i, p in enumerate(paths):
+        ins = [e for e in p.events if e.callee == "insert"]
+        if len(ins) != 1 or ins[0].rargs[1] is not key_name:
+            rec.add("lock path %d: one registration under the file's own name (shape not recognised)" % i, {"verdict": "inconclusive", "per_solver": {}, "time_s": 0})
+            continue
+        is_err = isinstance(p.ret, sym.Agg) and p.ret.variant == "Err"
+        kinds.add("loop" if is_err else "ok")
+        want = "(= %s %s)" % (D, bvlit(1 if is_err else 0, 64))
+        r = E.decide(ctx, p.pc + ["(not %s)" % want])
+        rec.add("lock path %d: %s" % (i, "a loop error exactly when the name was already registered" if is_err else "Ok exactly when the name was not registered"), r)
+        if is_err:
+            e = p.ret.fields["0"]
+            rec.add("lock path %d: the error is ImportLoop" % i, {"verdict": "holds" if isinstance(e, sym.Agg) and e.variant == "ImportLoop" else "violated",
+                                                                   "per_solver": {"structural": repr(e)[:50]}, "time_s": 0})
+    if kinds != {"loop", "ok"}:
+        rec.add("lock: both outcomes present (%s)" % sorted(kinds), {"verdict": "inconclusive", "per_solver": {}, "time_s": 0})
+    ex2 = sym.Executor(ctx, models=models, feasibility=E.feasibility(ctx))
+    p2 = [p for p in ex2.run(g, [sym.Ref("val", me), sym.Ref("val", file)]) if p.status == "return"]
+    rec.paths += len(p2)
+    for i, p in enumerate(p2):
+        rm = [e for e in p.events if e.callee == "remove"]
+        ok = len(rm) == 1 and rm[0].rargs[1] is key_name
+        rec.add("unlock path %d: removes the registration made under the same name" % i,
+                {"verdict": "holds" if ok else ("inconclusive" if len(rm) != 1 else "violated"), "per_solver": {"structural": "identity"}, "time_s": 0})
+    if not p2:
+        rec.add("unlock has a path", {"verdict": "inconclusive", "per_solver": {}, "time_s": 0})
+    return rec
